@@ -198,7 +198,13 @@ def odb_cases(draw):
         a = draw(st.sampled_from(_ARGS))
         lines.append(draw(st.sampled_from(["l%d = []\nl%d.append(%s)\n", "d%d = {}\nd%d['k'] = %s\n", "s%d = set()\ns%d.add(%s)\n"])) % (j, j, a))
     other = "import mod\nw = mod.f0(%s, %s)\nu = mod.C().m(w)\n" % (draw(st.sampled_from(_ARGS[:6])), draw(st.sampled_from(_ARGS[:6])))
-    return {"kind": "objectdb", "files": {"mod.py": "".join(lines), "other.py": other}, "reopens": draw(st.integers(1, 2)), "sync_between": draw(st.booleans())}
+    # a library folder outside the project (python_path preference) whose functions the project calls: next to the root with
+    # a name that starts with the root's name, or somewhere unrelated; and whether stored information is validated on open
+    outside = draw(st.sampled_from(["none", "prefix", "other"]))
+    if outside != "none":
+        lines.append("import helpers\nh1 = helpers.make(C())\nh2 = helpers.make(%s)\n" % draw(st.sampled_from(_ARGS[:6])))
+    return {"kind": "objectdb", "files": {"mod.py": "".join(lines), "other.py": other}, "reopens": draw(st.integers(1, 2)), "sync_between": draw(st.booleans()),
+            "outside": outside, "validate": draw(st.booleans())}
 
 
 def strategy(tier):
@@ -265,10 +271,10 @@ def _eval_ser(case):
     return out
 
 
-def _open(root):
+def _open(root, **prefs):
     from rope.base.project import Project
 
-    return Project(root, save_history=True, save_objectdb=True)
+    return Project(root, save_history=True, save_objectdb=True, **prefs)
 
 
 def _lists_data(project):
@@ -424,7 +430,16 @@ def _eval_odb(case):
     project = None
     try:
         fsmodel.write_tree(root, case["files"])
-        project = _open(root)
+        prefs = {}
+        libdir = None
+        if case.get("outside", "none") != "none":
+            libdir = root + "_lib" if case["outside"] == "prefix" else core.fresh_dir("c12lib")
+            fsmodel.write_tree(libdir, {"helpers.py": "def make(p):\n    return p\n"})
+            prefs["python_path"] = [libdir]
+            out.labels["objectdb:outside_library:" + case["outside"]] += 1
+        if case.get("validate"):
+            prefs["validate_objectdb"] = True
+        project = _open(root, **prefs)
         paths = sorted(case["files"])
         for i_, p in enumerate(paths):
             project.pycore.analyze_module(project.get_file(p))
@@ -441,7 +456,7 @@ def _eval_odb(case):
             project.close()
             project = None
             try:
-                project = _open(root)
+                project = _open(root, **prefs)
                 img2 = _odb_image(project)
             except Exception as e:
                 out.violation("C12:objectdb:reopen_raised:" + type(e).__name__, repr(e))
@@ -452,6 +467,8 @@ def _eval_odb(case):
                 return out
         if ncalls >= 1:
             out.nontrivial.add("objectdb")
+        if libdir and any(os.path.isabs(k) for k in img):
+            out.nontrivial.add("objectdb_outside_" + case["outside"])
     finally:
         if project is not None:
             try:
@@ -459,4 +476,6 @@ def _eval_odb(case):
             except Exception:
                 pass
         core.rmtree(root)
+        if libdir:
+            core.rmtree(libdir)
     return out
